@@ -13,6 +13,7 @@ import (
 	"golang.org/x/tools/go/ssa"
 
 	"jsverif/internal/prog"
+	"jsverif/internal/ssaeval"
 )
 
 func init() { register("C01", propC01, false, false) }
@@ -541,6 +542,53 @@ func (c *Ctx) interactionPairs() map[string]string {
 	return pairs
 }
 
+// guardedInCallers: the dereference sits in an unexported helper and the pointer is reached from the helper's receiver
+// or a parameter: every call site of the helper must be guarded by a nil test of the same path, as seen by the caller.
+func (c *Ctx) guardedInCallers(f *Fn, base ast.Expr, site ast.Node, cfgs map[*Fn]*funcCFG) string {
+	sites, closed := c.callersOf(f)
+	if !closed || len(sites) == 0 {
+		return ""
+	}
+	// the path must not be assigned in the helper on a path that leads to the use
+	path := accessPath(f.Pkg, base)
+	assigned := false
+	hcf := cfgs[f]
+	if hcf == nil {
+		hcf = buildCFG(f.Decl.Body)
+		cfgs[f] = hcf
+	}
+	ast.Inspect(f.Decl.Body, func(n ast.Node) bool {
+		if as, ok := n.(*ast.AssignStmt); ok {
+			for _, l := range as.Lhs {
+				if lp := accessPath(f.Pkg, l); lp != "" && (lp == path || strings.HasPrefix(path, lp+".")) {
+					if hcf.reachesWithout(as, site, nil) {
+						assigned = true
+					}
+				}
+			}
+		}
+		return true
+	})
+	if assigned {
+		return ""
+	}
+	for _, cs := range sites {
+		p := rebase(f, base, cs)
+		if p == "" {
+			return ""
+		}
+		cf := cfgs[cs.g]
+		if cf == nil {
+			cf = buildCFG(cs.g.Decl.Body)
+			cfgs[cs.g] = cf
+		}
+		if guardedNonNil(cs.g.Pkg, cf, cs.g.Decl.Body, cs.call, c.stackOf(cs.g, cs.call), p) == "" {
+			return ""
+		}
+	}
+	return fmt.Sprintf("the helper is only called where the pointer was tested: each of its %d call sites is guarded by a nil test of the same path", len(sites))
+}
+
 // ---------- recover discipline ----------
 
 func (c *Ctx) ruleRecoverDiscipline() {
@@ -640,6 +688,10 @@ func (c *Ctx) ruleNilable(rule string, reach map[*ssa.Function]bool) {
 			continue
 		}
 		if g := guardVariable(pk, s.f.Decl.Body, s.node, stack, s.path); g != "" {
+			r.Ok(rule, key, g, where)
+			continue
+		}
+		if g := c.guardedInCallers(s.f, s.base, s.node, cfgs); g != "" {
 			r.Ok(rule, key, g, where)
 			continue
 		}
@@ -1037,48 +1089,83 @@ func (c *Ctx) infoInvariant(t *Tables) string {
 
 // userTypeSchemaAlwaysSet: AddType assigns userType.Schema in every case of a switch that covers all SchemaNotation constants.
 func (c *Ctx) userTypeSchemaAlwaysSet() string {
+	// Decided on the abstract evaluation of catalog.AddType: (1) NewSchemaNotation returns one of its constants or
+	// an error; (2) for each of these constants, on every path of AddType that stores the user type in the catalog
+	// (UserTypes.Set) the Schema field of the stored value is non-nil; (3) AddType is the only constructor of UserType.
 	f := c.fn("catalog", "Catalog.AddType")
-	if f == nil {
+	nsn := c.P.LookupFunc("notation", "NewSchemaNotation")
+	ut := c.P.LookupType("catalog", "UserType")
+	if f == nil || nsn == nil || ut == nil {
 		return ""
 	}
-	res := ""
-	ast.Inspect(f.Decl.Body, func(n ast.Node) bool {
-		sw, ok := n.(*ast.SwitchStmt)
-		if !ok || sw.Tag == nil {
-			return true
+	st, _ := ut.Type().Underlying().(*types.Struct)
+	schemaIdx := -1
+	for i := 0; st != nil && i < st.NumFields(); i++ {
+		if st.Field(i).Name() == "Schema" {
+			schemaIdx = i
 		}
-		if c.switchExhaustive(f.Pkg, sw) == "" {
-			return true
-		}
-		all := true
-		for _, cs := range sw.Body.List {
-			cc := cs.(*ast.CaseClause)
-			sets := false
-			for _, s := range cc.Body {
-				ast.Inspect(s, func(m ast.Node) bool {
-					if as, ok := m.(*ast.AssignStmt); ok {
-						for _, l := range as.Lhs {
-							if fld := fieldSel(f.Pkg, l); fld != nil && fld.Name() == "Schema" {
-								sets = true
-							}
-						}
-					}
-					return true
-				})
-			}
-			// a clause may also return an error instead
-			if !sets && !returnsNonNilError(f.Pkg, cc.Body) {
-				all = false
-			}
-		}
-		if all {
-			res = "FIELD-SET-EXHAUSTIVELY: catalog.AddType is the only constructor of UserType and assigns Schema (or returns an error) in every clause of a switch covering all SchemaNotation constants"
-		}
-		return true
-	})
-	if res == "" {
+	}
+	sf, nf := c.P.SSAFunc(f.Obj), c.P.SSAFunc(nsn)
+	if schemaIdx < 0 || sf == nil || nf == nil {
 		return ""
 	}
+	// (1)
+	kinds := map[string]ssaeval.Value{}
+	for _, o := range c.newEval().Run(nf, []ssaeval.Value{ssaeval.U("sn")}) {
+		if o.Incomplete != "" || o.Panics || len(o.Rets) != 2 {
+			return ""
+		}
+		isNil, known := o.Rets[1].IsNilKnown()
+		switch {
+		case known && !isNil:
+		case known && isNil && o.Rets[0].K == ssaeval.Const:
+			kinds[o.Rets[0].Term()] = o.Rets[0]
+		default:
+			return ""
+		}
+	}
+	if len(kinds) == 0 {
+		return ""
+	}
+	// (2)
+	nSet := 0
+	for _, k := range kinds {
+		ev := c.newEval()
+		base := ev.Oracle
+		kk := k
+		ev.Oracle = func(fn *ssa.Function, args []ssaeval.Value) (ssaeval.Value, bool) {
+			if fn == nf {
+				return ssaeval.Value{K: ssaeval.Tuple, Elems: []ssaeval.Value{kk, {K: ssaeval.Nil}}}, true
+			}
+			return base(fn, args)
+		}
+		ev.WantCall = func(fn *ssa.Function) bool {
+			return (fn.Name() == "Set" || fn.Name() == "SetToTop") && fn.Signature.Recv() != nil && strings.HasSuffix(namedType(fn.Signature.Recv().Type()), "catalog.UserTypes")
+		}
+		for _, o := range ev.Run(sf, []ssaeval.Value{ssaeval.Obj("c"), ssaeval.U("d"), ssaeval.Obj("coreUserTypes")}) {
+			if o.Incomplete != "" || o.Panics {
+				return ""
+			}
+			for _, e := range o.Events {
+				if e.Kind != "call" || len(e.Deref) < 3 {
+					continue
+				}
+				nSet++
+				v := e.Deref[2]
+				if v.K != ssaeval.Struct {
+					return ""
+				}
+				isNil, known := v.Fields[schemaIdx].IsNilKnown()
+				if !known || isNil {
+					return ""
+				}
+			}
+		}
+	}
+	if nSet == 0 {
+		return ""
+	}
+	res := fmt.Sprintf("FIELD-SET-EXHAUSTIVELY: for each of the %d notations NewSchemaNotation can return, every path of catalog.AddType that stores the user type has set its Schema to a non-nil value (abstract evaluation)", len(kinds))
 	// AddType must be the only place constructing a UserType
 	for _, g := range c.libFns() {
 		ok := true
@@ -1777,6 +1864,27 @@ func lenEvidence(pk *packages.Package, cf *funcCFG, body *ast.BlockStmt, site as
 					}
 				}
 			}
+		}
+	}
+	// edge facts: every path to the site crosses an edge of a test that implies the length (own if, operand of ||,
+	// earlier case of a tagless switch), with no assignment to the value in between
+	if cf != nil {
+		kills := func(n ast.Node) bool {
+			k := false
+			ast.Inspect(n, func(m ast.Node) bool {
+				if as, ok := m.(*ast.AssignStmt); ok {
+					for _, l := range as.Lhs {
+						if lp := accessPath(pk, l); lp != "" && (lp == path || strings.HasPrefix(path, lp+".")) {
+							k = true
+						}
+					}
+				}
+				return true
+			})
+			return k
+		}
+		if cf.establishedAt(site, func(cond ast.Expr, trueEdge bool) bool { return implies(cond, trueEdge) >= need }, kills) {
+			return "every path crosses an edge of a length/emptiness test that implies a sufficient length"
 		}
 	}
 	// dominating `if <cond> { return }` where !cond implies the length
